@@ -98,10 +98,11 @@ Definition read_raw_faithful (s : bytes) : option bytes :=
             else None
   end.
 
-(* repaired: decode everything *)
+(* repaired: decode everything.  Go's base64 decoder skips CR and LF wherever they occur *)
+Definition is_crlf (b : byte) : bool := (b2n b =? 13) || (b2n b =? 10).
 Definition read_raw (s : bytes) : option bytes :=
   match strip_prefix binary_prefix s with
-  | Some b64 => match b64 with [] => None | _ => b64_decode b64 end
+  | Some b64 => match b64 with [] => None | _ => b64_decode (filter (fun b => negb (is_crlf b)) b64) end
   | None => if bytes_eqb s empty_word then Some []
             else if bytes_eqb s null_word then Some [n2b 5; n2b 0]
             else None
